@@ -14,7 +14,7 @@
    only (theorems.json). *)
 From Coq Require Import SpecFloat.
 Require Import Base Value Float PrintOptions Printer ParseOptions Utf8 Reader Scan Num NumberOps Parser.
-Require Import RelFramework IoProofs RoundtripProofs TextProofs SimFramework InterruptProofs CrossProofs SourcesAgree.
+Require Import RelFramework IoProofs RoundtripProofs TextProofs SimFramework InterruptProofs CrossProofs SourcesAgree StrSliceProofs Utf8StrProofs ValidTextProofs.
 Local Open Scope nat_scope.
 
 Theorem C06_failure_is_error : forall r e l, rpending r = false -> skip_intr (rinput r) = EFail e :: l ->
@@ -219,3 +219,43 @@ Proof.
   cbv zeta. split; [vm_compute; reflexivity|]. split; [vm_compute; reflexivity|]. split; [vm_compute; reflexivity|].
   split; [|vm_compute; reflexivity]. eexists; eexists; eexists. vm_compute. reflexivity.
 Qed.
+
+(* On a well-formed UTF-8 text - every str is one - the exception never arises:
+   from_str and from_slice return exactly the same result, value or error with
+   its position, for every option set and build, through the value API and the
+   datum API. The str reader is shown to stand inside the text at a character
+   boundary wherever a symbol or string is scanned (the reader-state logic of
+   C17), so the bytes handed to the validation that SliceRead performs and
+   StrRead skips are always well-formed (coq/Proofs/ValidTextProofs.v). *)
+Theorem C06_str_slice_agree_on_text : forall W, utf8_valid W = true -> forall ro alpha fast std_parse,
+  from_trait ro alpha fast std_parse SrcStr (bytes_events W) = from_trait ro alpha fast std_parse SrcSlice (bytes_events W) /\
+  datum_from_trait ro alpha fast std_parse SrcStr (bytes_events W) = datum_from_trait ro alpha fast std_parse SrcSlice (bytes_events W).
+Proof. exact valid_text_agree. Qed.
+Print Assumptions C06_str_slice_agree_on_text.
+
+(* ... and at every call: a str parser standing anywhere inside such a text
+   (okr W) and a slice parser at the same place (sprel) return the same item
+   and stay at the same place, so the statement chains over iterations *)
+Theorem C06_str_slice_every_call_on_text : forall W, utf8_valid W = true -> forall ro alpha fast std_parse fuel s1 s2,
+  sprel s1 s2 -> okr W (rd s1) ->
+  fst (next_value ro alpha fast std_parse fuel s1) = fst (next_value ro alpha fast std_parse fuel s2) /\
+  sprel (snd (next_value ro alpha fast std_parse fuel s1)) (snd (next_value ro alpha fast std_parse fuel s2)).
+Proof.
+  intros W HW ro alpha fast std_parse fuel s1 s2 Hs Ho.
+  exact (proj1 (twin_values W HW ro alpha fast std_parse fuel) s1 s2 Hs Ho I).
+Qed.
+Print Assumptions C06_str_slice_every_call_on_text.
+
+(* the three sources on a well-formed text *)
+Theorem C06_three_sources_agree_on_text : forall W, utf8_valid W = true -> forall ro alpha fast std_parse,
+  from_trait ro alpha fast std_parse SrcStr (bytes_events W) = from_trait ro alpha fast std_parse SrcSlice (bytes_events W) /\
+  match from_trait ro alpha fast std_parse SrcSlice (bytes_events W), from_trait ro alpha fast std_parse SrcIo (bytes_events W) with
+  | POk a, POk b => a = b
+  | PErr (XErr (ESyntax c1 _ _)), PErr (XErr (ESyntax c2 _ _)) => c1 = c2
+  | PErr (XErr (EIo a)), PErr (XErr (EIo b)) => a = b
+  | _, _ => False
+  end.
+Proof.
+  intros W HW ro alpha fast std_parse. split; [exact (proj1 (valid_text_agree W HW ro alpha fast std_parse))|apply slice_stream_agree].
+Qed.
+Print Assumptions C06_three_sources_agree_on_text.
